@@ -22,3 +22,42 @@ Definition stream_of (ps : list (N * bytes)) : bytes := flat_map snd ps.
 (* pre is a proper prefix of a complete packet (possibly empty: the stream ended cleanly) *)
 Definition partial_packet (pre : bytes) : Prop :=
   exists t suf, suf <> [] /\ framed (t, pre ++ suf).
+
+(* ---- executable form: the complete packets at the front of ANY byte string ------------------------- *)
+(* value and size of the variable-size number at the front of w, if it is all there *)
+Definition take_varnum (w : bytes) : option (N * nat) :=
+  match w with
+  | [] => None
+  | b :: r =>
+      if b <=? 252 then Some (b, 1%nat)
+      else let k := if b =? 253 then 2%nat else if b =? 254 then 4%nat else 8%nat in
+           if Nat.leb k (length r) then Some (be_to_N (firstn k r), S k) else None
+  end.
+
+(* the first packet of w, if it is all there, and what follows it *)
+Definition first_packet (w : bytes) : option ((N * bytes) * bytes) :=
+  match take_varnum w with
+  | None => None
+  | Some (t, a) =>
+      match take_varnum (skipn a w) with
+      | None => None
+      | Some (l, b) =>
+          let body := skipn (a + b) w in
+          if l <=? N.of_nat (length body)
+          then Some ((t, firstn (a + b + N.to_nat l) w), skipn (N.to_nat l) body)
+          else None
+      end
+  end.
+
+(* all complete packets at the front of w, and the incomplete remainder *)
+Fixpoint split_stream (fuel : nat) (w : bytes) : list (N * bytes) * bytes :=
+  match fuel with
+  | O => ([], w)
+  | S f =>
+      match first_packet w with
+      | None => ([], w)
+      | Some (p, rest) => let '(ps, r) := split_stream f rest in (p :: ps, r)
+      end
+  end.
+(* every packet has at least two bytes, so [length w] rounds suffice *)
+Definition packets_of (w : bytes) : list (N * bytes) * bytes := split_stream (length w) w.
